@@ -97,10 +97,29 @@ def run(ctx):
                         adopters[fi.name] = fi.params().index(arg.id)
                         changed = True
     ctx.extra['line_list_adopting_functions'] = adopters
+    # ... and a private worker that *builds* such a list and returns it (alone or as one element of a tuple): which positions of its
+    # result are provably lists of bistr destined to become a tree's lines (the wrapping of raw source extracted into a worker)
+    producers = {}
+    called_for_lines = set()
     for fi in ctx.repo.all_funcs():
         if isinstance(fi.node, ast.Lambda):
             continue
-        check_bistr(ctx, fi, adopters)
+        for n in walk_no_nested(fi.node):
+            if isinstance(n, ast.Assign) and isinstance(n.value, ast.Call) and isinstance(n.value.func, ast.Name) and n.value.func.id.startswith('_'):
+                called_for_lines.add(n.value.func.id)
+    for fi in ctx.repo.all_funcs():
+        if isinstance(fi.node, ast.Lambda) or '.' in fi.qualname or fi.name not in called_for_lines:
+            continue
+        if not any(isinstance(x, ast.Call) and call_name(x) == 'bistr' for x in walk_no_nested(fi.node)):
+            continue
+        pos = check_bistr(ctx, fi, adopters, producer=True)
+        if pos:
+            producers[fi.name] = pos
+    ctx.extra['line_list_producing_functions'] = {k: sorted(v) for k, v in producers.items()}
+    for fi in ctx.repo.all_funcs():
+        if isinstance(fi.node, ast.Lambda):
+            continue
+        check_bistr(ctx, fi, adopters, producers=producers)
 
     # ---- R1.3 / R1.4 ----------------------------------------------------------------------------------------------------
     from .c03 import handler_tables, NOT_IMPLEMENTED_ONE
@@ -136,17 +155,92 @@ def run(ctx):
                       f'{q} must reach all children through the grammar-driven enumeration', fi.lineno)
     check_primitive_puts(ctx)
     check_joined_words(ctx)
+    check_elif_needs_if(ctx)
 
 
-def check_bistr(ctx, fi, adopters=None):
+def live_params(repo, fi) -> set:
+    """Parameters of a private module-level function that receive a live line list at every call site (`X._lines`, or a caller's local that is
+    only ever bound from `X._lines`): a worker that is handed the lines it works on."""
+    cache = repo.__dict__.setdefault('_live_params_cache', {})
+    if fi.key in cache:
+        return cache[fi.key]
+    out = set()
+    cache[fi.key] = out
+    if '.' in fi.qualname or not fi.name.startswith('_') or isinstance(fi.node, ast.Lambda):
+        return out
+    sites = repo.__dict__.get('_bare_call_sites')
+    if sites is None:
+        sites = repo.__dict__['_bare_call_sites'] = {}
+        for g in repo.all_funcs():
+            if isinstance(g.node, ast.Lambda):
+                continue
+            for c in walk_no_nested(g.node):
+                if isinstance(c, ast.Call) and isinstance(c.func, ast.Name):
+                    sites.setdefault(c.func.id, []).append((g, c))
+    ps = fi.params()
+    calls = sites.get(fi.name, [])
+    if not calls:
+        return out
+
+    def live_arg(g, a):
+        if isinstance(a, ast.Attribute):
+            return a.attr == '_lines'
+        if isinstance(a, ast.Name):
+            vals = []
+            for x in walk_no_nested(g.node):
+                if isinstance(x, ast.Assign) and any(isinstance(t, ast.Name) and t.id == a.id for t in x.targets):
+                    vals.append(x.value)
+                elif isinstance(x, ast.NamedExpr) and x.target.id == a.id:
+                    vals.append(x.value)
+                elif isinstance(x, (ast.For, ast.AugAssign)) and any(isinstance(y, ast.Name) and y.id == a.id for y in ast.walk(x.target)):
+                    return False
+                elif isinstance(x, ast.Assign) and any(isinstance(y, ast.Name) and y.id == a.id and isinstance(y.ctx, ast.Store)
+                                                       for t in x.targets if not isinstance(t, ast.Name) for y in ast.walk(t)):
+                    return False
+            if vals:
+                return all(isinstance(v, ast.Attribute) and v.attr == '_lines' for v in vals)
+            return a.id in g.params() and a.id in live_params(repo, g)
+        return False
+    for i, p in enumerate(ps):
+        ok = True
+        for g, c in calls:
+            if any(isinstance(a, ast.Starred) for a in c.args) or any(k.arg is None for k in c.keywords):
+                ok = False
+                break
+            a = c.args[i] if i < len(c.args) else next((k.value for k in c.keywords if k.arg == p), None)
+            if a is None or not live_arg(g, a):
+                ok = False
+                break
+        if ok:
+            out.add(p)
+    return out
+
+
+class _Quiet:
+    def __init__(self, ctx):
+        self.repo = ctx.repo
+
+    def check(self, *a, **k):
+        pass
+
+
+def check_bistr(ctx, fi, adopters=None, producer=False, producers=None):
     """Flow-sensitive: `live` = names that MAY alias a live line list (bound from `<x>._lines`, or a _get_src(..., True) list that the
     function installs as `<x>._lines`); `bs` = names that MUST hold a bistr.  Every store into a may-live list must be a bistr value."""
     from ..cfg import CFG, solve, subnodes
     fn = fi.node
-    if not any(isinstance(n, ast.Attribute) and n.attr == '_lines' for n in walk_no_nested(fn)) and \
+    producers = producers or {}
+    if not producer and not any(isinstance(n, ast.Attribute) and n.attr == '_lines' for n in walk_no_nested(fn)) and \
             not any(isinstance(n, ast.keyword) and n.arg == 'lcopy' for n in ast.walk(fn)) and \
             not any(isinstance(n, ast.Call) and call_name(n) in (adopters or {}) for n in walk_no_nested(fn)):
         return
+    ret_ok = {}          # producer mode: result position (-1: the plain value) -> every return so far hands out a may-live bistr list there
+    if producer:
+        ctx = _Quiet(ctx)
+        rets = [r for r in walk_no_nested(fn) if isinstance(r, ast.Return)]
+        shapes = {len(r.value.elts) if isinstance(r.value, ast.Tuple) else -1 for r in rets if r.value is not None}
+        if not rets or len(shapes) != 1 or any(r.value is None for r in rets):
+            return set()
     # names installed as a tree's line list somewhere in the function
     installed = set()
     for n in walk_no_nested(fn):
@@ -157,6 +251,12 @@ def check_bistr(ctx, fi, adopters=None):
                         installed.add(t.id)
                 if isinstance(n.value, ast.Name):
                     installed.add(n.value.id)
+    if producer:
+        for r in rets:
+            for e in (r.value.elts if isinstance(r.value, ast.Tuple) else [r.value]):
+                if isinstance(e, ast.Name):
+                    installed.add(e.id)
+    # a list received from a producing worker is one the function installs / hands to an adopter by name
     # ... or handed to FST(ast, <lines>, ..., lcopy=False), which adopts the list without converting it
     adopt_calls = []
     adopt_map = {}
@@ -256,6 +356,8 @@ def check_bistr(ctx, fi, adopters=None):
             live.add(name)
         elif is_get_src_lines(vv) and name in installed:
             live.add(name)
+        elif name in installed and isinstance(vv, ast.Call) and isinstance(vv.func, ast.Name) and -1 in producers.get(vv.func.id, ()):
+            live.add(name)
         elif name in installed and isinstance(vv, (ast.List, ast.BinOp, ast.ListComp, ast.Subscript)) and is_bistr_value(vv, live, bs):
             live.add(name)        # a list built from bistr values that the function later installs as a tree's lines
         elif name in installed and isinstance(vv, ast.Attribute) and vv.attr == 'lines':
@@ -305,16 +407,25 @@ def check_bistr(ctx, fi, adopters=None):
                           f'{kind}: `{norm(v, 60)}` is not provably a bistr: a plain str line has no c2b / b2c, so the next location query on '
                           f'that line raises AttributeError (verify() does not notice, it never converts columns)', getattr(stn, 'lineno', 0),
                           sample=norm(stn, 90))
+        if producer and node.kind == 'stmt' and isinstance(node.ast, ast.Return) and node.ast.value is not None:
+            rv = node.ast.value
+            for i, e in (enumerate(rv.elts) if isinstance(rv, ast.Tuple) else [(-1, rv)]):
+                good = is_live_expr(e, live) and isinstance(e, ast.Name)
+                ret_ok[i] = ret_ok.get(i, True) and good
         if node.kind == 'stmt' and isinstance(node.ast, (ast.Assign, ast.AnnAssign)) and getattr(node.ast, 'value', None) is not None:
             tgs = node.ast.targets if isinstance(node.ast, ast.Assign) else [node.ast.target]
             for t in tgs:
                 if isinstance(t, ast.Name):
                     bind(t.id, node.ast.value, live, bs)
                 elif isinstance(t, (ast.Tuple, ast.List)):
-                    for e in t.elts:
+                    v = node.ast.value
+                    prod = producers.get(v.func.id, set()) if isinstance(v, ast.Call) and isinstance(v.func, ast.Name) else set()
+                    for i, e in enumerate(t.elts):
                         for y in ast.walk(e):
                             if isinstance(y, ast.Name):
                                 bind(y.id, None, live, bs)
+                        if isinstance(e, ast.Name) and i in prod and e.id in installed:
+                            live.add(e.id)        # position i of the worker's result is a list of bistr built to be installed
         elif node.kind == 'iter':
             it = node.ast.iter
             tg = node.ast.target
@@ -329,7 +440,9 @@ def check_bistr(ctx, fi, adopters=None):
                     bs.add(tg.elts[1].id)
         return (frozenset(live), frozenset(bs))
 
-    solve(cfg, (frozenset(), frozenset()), transfer, lambda a, b: (a[0] | b[0], a[1] & b[1]))
+    solve(cfg, (frozenset(live_params(ctx.repo, fi)), frozenset()), transfer, lambda a, b: (a[0] | b[0], a[1] & b[1]))
+    if producer:
+        return {i for i, ok in ret_ok.items() if ok}
 
 
 # ---- R1.5 / R1.6 -------------------------------------------------------------------------------------------------------
@@ -446,3 +559,73 @@ def check_joined_words(ctx):
                           c.lineno, sample={'handler': fi.key, 'repair': norm(c, 60)})
     if n < 2:
         raise AnalysisError(f'only {n} joined-words repairs found in the put-slice handlers')
+
+
+# ---- R1.8 ------------------------------------------------------------------------------------------------------------
+
+def check_elif_needs_if(ctx):
+    """A lone `If` put as the whole `orelse` block may be written as `elif` - but `elif` exists only after an `if`: `for ... else:` / `while` /
+    `try` take an `else:` with the `if` inside.  Wherever the statement-put code decides "the new body is a lone If, write it as elif" (a test
+    `<element of the put body>.__class__ is If`, directly or through a private predicate), the decision must also rest on "the block's owner
+    is an If" (`<target>.a.__class__ is If`): in the same conjunction, in an enclosing test, or in a flag the conjunction uses."""
+    from ..struct import parent_map, enclosing_tests
+    ctx.rule('R1.8', 'every decision to write a put statement as `elif` (the put body is a lone If) is conjoined with a test that the owner of the '
+                     'block is an If', 2)
+    m = ctx.repo.mod('slice_stmtlike')
+
+    def is_cls_is_if(e):
+        return isinstance(e, ast.Compare) and len(e.ops) == 1 and isinstance(e.ops[0], ast.Is) and isinstance(e.left, ast.Attribute) and \
+            e.left.attr == '__class__' and isinstance(e.comparators[0], ast.Name) and e.comparators[0].id == 'If'
+
+    def lone_if_test(e):           # <something>[i].__class__ is If  (an element of a list of statements)
+        return is_cls_is_if(e) and isinstance(e.left.value, ast.Subscript)
+
+    def owner_if_test(e):          # <node>.a.__class__ is If
+        return is_cls_is_if(e) and isinstance(e.left.value, ast.Attribute) and e.left.value.attr == 'a'
+    # private predicates whose result implies the lone-If test (`return ... and put_body[0].__class__ is If`)
+    preds = set()
+    for q, fis in m.funcs.items():
+        for fi in fis:
+            if isinstance(fi.node, ast.Lambda):
+                continue
+            rets = [r for r in walk_no_nested(fi.node) if isinstance(r, ast.Return) and r.value is not None]
+            if len(rets) == 1 and any(lone_if_test(x) for x in ast.walk(rets[0].value)) and not any(owner_if_test(x) for x in ast.walk(rets[0].value)):
+                preds.add(fi.name)
+    n = 0
+    for q, fis in m.funcs.items():
+        for fi in fis:
+            if isinstance(fi.node, ast.Lambda) or fi.name in preds:
+                continue
+            par = None
+            binds = {}
+            for x in walk_no_nested(fi.node):
+                if isinstance(x, ast.Assign) and len(x.targets) == 1 and isinstance(x.targets[0], ast.Name):
+                    binds.setdefault(x.targets[0].id, []).append(x.value)
+            for x in walk_no_nested(fi.node):
+                hit = lone_if_test(x) or (isinstance(x, ast.Call) and call_name(x) in preds)
+                if not hit:
+                    continue
+                par = par or parent_map(fi.node)
+                # the put body only: a test on the *existing* block's statements (`orelse[0]`) is about what is there, not about what to write
+                conj = [t for t, pol in enclosing_tests(fi.node, x, par) if pol]
+                cur = x
+                while cur in par and isinstance(par[cur], ast.BoolOp) and isinstance(par[cur].op, ast.And):
+                    conj += [v for v in par[cur].values if v is not cur]
+                    cur = par[cur]
+
+                def expand(e, depth=0):
+                    out = [e]
+                    if isinstance(e, ast.BoolOp) and isinstance(e.op, ast.And):
+                        for v in e.values:
+                            out += expand(v, depth)
+                    elif isinstance(e, ast.Name) and depth < 2 and len(binds.get(e.id, [])) == 1:
+                        out += expand(binds[e.id][0], depth + 1)
+                    return out
+                flat = [y for c in conj for y in expand(c)]
+                n += 1
+                ctx.check('R1.8', any(owner_if_test(y) for y in flat), fi.module, fi.qualname, f'lone-If decision: {norm(par.get(cur, cur) if cur is not x else x, 70)}',
+                          'the put body is recognised as a lone `If` (to be written as `elif`) without asking whether the owner of the block is an `If`: into the '
+                          '`else` of a for / while / try this writes `elif ...:` after a block that is not an `if` - the source no longer parses while the tree '
+                          'holds orelse=[If]', x.lineno, sample={'function': fi.key, 'test': norm(x, 60)})
+    if n < 1:
+        raise AnalysisError('no lone-If (elif) decision found in slice_stmtlike (anchor vanished)')
